@@ -14,6 +14,7 @@ import Rl.Lemmas.EditorNext
 import Rl.Lemmas.EditorReplaceChar
 import Rl.Lemmas.EditorUndoSafe
 import Rl.Lemmas.EditorFrame
+import Rl.Lemmas.EditorRing
 open Rl
 
 /-- A successful read of one byte consumes exactly one byte of the input (buffer, kernel queue or
@@ -489,6 +490,19 @@ theorem C17_bindOK (c : Cmd) (h : c ≠ .replace (.forwardChar 0) none) : BindOK
       · rw [if_neg hm]; exact ⟨_, rfl⟩
   case selfInsert n ch =>
     cases li <;> exact ⟨_, rfl⟩
+
+/-- **kill-ring frame** (a building block for carrying `PopOK`, not yet used by the whole-read theorem):
+    every command other than `Kill`, `Replace`, `ViYankTo`, `Yank`, `YankPop` leaves the kill ring exactly
+    as it was, whether `execute` returns or exits; so do `next_cmd` and the dispatch loop (completion and
+    incremental search, for every key sequence typed inside them).  Hence between a `Yank` and a `YankPop`
+    only the main loop's own reset and those five commands can change `last_action`. -/
+theorem C17_ring_frame (S : Segmenter) (U : UData) (cfg : EdCfg) :
+    (∀ cmd s s' st, cmd.usesRing = false → execute S U cfg cmd s = .ok (st, s') → s'.ring = s.ring) ∧
+    (∀ fuel sea iep s s' c, nextCmd S U cfg fuel sea iep s = .ok (c, s') → s'.ring = s.ring) ∧
+    (∀ fuel cmd s s' r, preCmds S U cfg fuel cmd s = .ok (r, s') → s'.ring = s.ring) :=
+  ⟨fun cmd _ _ _ hc hr => (keeps_ring_execute S U cfg cmd hc).ok hr,
+   fun fuel sea iep _ _ _ hr => (keeps_ring_nextCmd S U cfg fuel sea iep).ok hr,
+   fun fuel cmd _ _ _ hr => (keeps_ring_preCmds S U cfg fuel cmd).ok hr⟩
 
 /-- **`next_cmd` never panics at all in emacs mode** when the binding table does not bind vi's `R`
     command (then not even D43 is reachable through `next_cmd`) -/
